@@ -19,6 +19,7 @@ From Coq Require Import List Bool ZArith QArith Arith.
 Import ListNotations.
 
 Definition edge := (Z * Z * Q)%type.
+Definition mke (a b : Z) (w : Q) : edge := (a, b, w).
 Definition e_src (e : edge) : Z := fst (fst e).
 Definition e_dst (e : edge) : Z := snd (fst e).
 Definition e_w (e : edge) : Q := snd e.
